@@ -225,7 +225,7 @@ let do_msg tref vs =
           let rd = (match mx_ref_decode s idx b zero with Some m -> string_of_val m | None -> "reject") in
           (hex_of_bytes b, rt, rd)) in
     let wf = if mx_msg_ok progs idx v then "1" else "0" in
-    let rtok = if mx_rt_applies s && mx_rt_ok s idx v then "1" else "0" in
+    let rtok = if mx_rt_applies_at s idx && mx_rt_ok s idx v then "1" else "0" in
     String.concat "\t" ["pico=" ^ pico_s; "ref=" ^ hex_of_bytes refb; "rt=" ^ rt_s; "refdec=" ^ refdec_s; "norm=" ^ string_of_val nv; "wfmsg=" ^ wf; "rtok=" ^ rtok]
 
 (* dec: typeref gotype hexdata ... -> st=<ok|err:f:cls> val=<..> ref=<val|reject> *)
